@@ -166,14 +166,29 @@ def run_C16(tier, seed, replay=None, procs=16):
     res2 = engine.run_family(FT.number([p for p in smt_problems if p["objs"]]),
                              {"via_smt2": True, "solver_kw": {"optimizer": "optimize"}, "default_solve": False,
                               "replay_per_problem": 0, "indicators": False, "buffers": False, "seed": seed}, procs=procs)
+    # (a') export after an optimisation has run on the same solver (incremental optimiser, minimise and maximise)
+    after = []
+    for p in base[: (60 if full else 16)]:
+        if not p["tasks"]:
+            continue
+        for kind in ("minimize", "maximize"):
+            q = copy.deepcopy(p)
+            q["inds"] = list(q["inds"]) + [{"name": "SMTX", "cls": "IndicatorFromMathExpression", "expr": {"op": "start", "task": 1}}]
+            q["objs"] = [{"cls": "ObjectiveMinimizeIndicator" if kind == "minimize" else "ObjectiveMaximizeIndicator",
+                          "ind": len(q["inds"]), "kind": kind, "weight": 1}]
+            q["tag"] = "smt2-after-solve/" + kind
+            after.append(q)
+    after = FT.number(after)
+    res_after = engine.run_family(after, {"via_smt2": True, "smt2_after_solve": True, "default_solve": False, "replay_per_problem": 0,
+                                          "indicators": False, "buffers": False, "seed": seed}, procs=procs)
     # (b) JSON round trip of task / worker definitions
     rt = FT.number([dict(copy.deepcopy(p), tag="roundtrip/" + p["tag"]) for p in base])
     res3 = engine.run_family(rt, {"build_kw": {"roundtrip": True}, "replay_per_problem": 0, "seed": seed}, procs=procs)
     viol = list(out["violations"])
-    for res in (res1, res2, res3):
+    for res in (res1, res2, res_after, res3):
         viol += props.collect("C16", res, {"sound", "complete"})
     cov = out["coverage"]
-    for name, res in (("smt2_plain", res1), ("smt2_optimize", res2), ("json_roundtrip", res3)):
+    for name, res in (("smt2_plain", res1), ("smt2_optimize", res2), ("smt2_after_solve", res_after), ("json_roundtrip", res3)):
         c = props.coverage_of(res)
         cov["states"] += c["states"]
         cov["transitions"] += c["transitions"]
